@@ -522,6 +522,46 @@ def vars_model_one(chk, sets, label):
     chk.count("variable_tables_" + (after[0] if after[0] == "ok" else "error_" + after[1]))
 
 
+def layouts_one(chk, rng):
+    """the same deb lines in one file, or spread over mirror.list and the files of mirror.list.d (any split, files with or without a
+    final newline, file names in any order): the tuples to mirror are the same"""
+    flat_urls = set(rng.sample(URLS, rng.randint(0, 1)))
+    lines = [gen_line(rng, flat_urls) for _ in range(rng.randint(2, 6))]
+    cfg0, err0 = real_config(lines)
+    base = ("error", err0) if cfg0 is None else ("ok", sorted(tuples_of(norm_flat_dirs(dump_cfg(cfg0)))))
+    for trial in range(3):
+        top = fsutil.workdir("cfglay")
+        p = os.path.join(top, "mirror.list")
+        nfiles = rng.randint(1, 3)
+        parts_ = [[] for _ in range(nfiles + 1)]
+        for ln in lines:
+            parts_[rng.randrange(nfiles + 1)].append(ln)
+        ends = [rng.choice(["\n", ""]) for _ in range(nfiles + 1)]
+        with open(p, "w") as fp:
+            fp.write(f"set base_path {top}/spool\nset etc_netrc {top}/auth.conf\n" + "\n".join(parts_[0]) + (ends[0] if parts_[0] else "\n"))
+        os.makedirs(p + ".d")
+        names = rng.sample(["00-a.list", "10-b.list", "zz.list", "Z.list", "b.list"], nfiles)
+        for i in range(nfiles):
+            with open(os.path.join(p + ".d", names[i]), "w") as fp:
+                fp.write("\n".join(parts_[i + 1]) + (ends[i + 1] if parts_[i + 1] else ""))
+        replay = {"layout": True, "lines": lines, "split": parts_, "final_newline": [e == "\n" for e in ends], "names": names}
+        try:
+            cfg = Config(Path(p))
+            got = ("ok", sorted(tuples_of(norm_flat_dirs(dump_cfg(cfg)))))
+        except RepositoryConfigException:
+            got = ("error", "mixed")
+        except Exception as ex:
+            got = ("error", f"{type(ex).__name__}: {ex}")
+        fsutil.rmtree(top)
+        if got[0] != base[0] or (got[0] == "ok" and got[1] != base[1]):
+            miss = [t for t in base[1] if t not in got[1]][:3] if got[0] == base[0] == "ok" else None
+            extra = [t for t in got[1] if t not in base[1]][:3] if got[0] == base[0] == "ok" else None
+            chk.violation("layout:differs-from-single-file", replay,
+                          f"the lines spread over {nfiles + 1} files give {got[0]}, in one file {base[0]}: missing {miss} extra {extra}")
+            return
+        chk.count("configuration_layouts_checked")
+
+
 def nested_corpus(chk):
     """directed: two repositories whose URLs are nested, in both line orders, with a skip-clean URL below both of them (each
     must protect the path relative to itself), and one below the outer repository only"""
@@ -546,6 +586,8 @@ def run(chk, tier, rng):
     nested_corpus(chk)
     for i in range(40 if tier == "quick" else 800):
         variables_one(chk, random.Random(f"C17v-{chk.seed}-{i}"))
+    for i in range(25 if tier == "quick" else 600):
+        layouts_one(chk, random.Random(f"C17l-{chk.seed}-{i}"))
     for name, sets in VARS_CORPUS:
         vars_model_one(chk, sets, name)
     for i in range(60 if tier == "quick" else 2500):
